@@ -187,7 +187,11 @@ def check(case, rec):
             row = t.values[rpos[k]]
             all_close("pcDelta_grouped-row", list(row), exp, f"group {k}")
         if len(groups) >= 2:
-            c = call("pcDelta_grouped_cross", pyrepseq.pcDelta_grouped_cross, df, by_arg, "seq", condensed=True, bins=list(edges))
+            mkw = {}
+            if case.get("maxseqs_noop"):
+                # maxseqs at least every group size but below the table size: each pairwise pcDelta keeps all its members
+                mkw["maxseqs"] = max(len(v_) for v_ in groups.values())
+            c = call("pcDelta_grouped_cross", pyrepseq.pcDelta_grouped_cross, df, by_arg, "seq", condensed=True, bins=list(edges), **mkw)
             pairs = [(a, b) for i, a in enumerate(names) for b in names[i + 1:]]
             if len(c) != len(pairs):
                 raise Violation("pcDelta_grouped_cross-rows", f"{len(c)} rows, expected {len(pairs)}")
@@ -215,6 +219,10 @@ def check(case, rec):
         all_close("pcDelta_grouped-bins0-value", [flat[rpos[k]] for k in names], [fl(within[k]) for k in names], "bins=0 per-group pc")
         if len(groups) >= 2:
             sq = call("pcDelta_grouped_cross0", pyrepseq.pcDelta_grouped_cross, df, by_arg, "seq", bins=0)
+            if case.get("maxseqs_noop"):
+                t2 = call("pcDelta_grouped-maxseqs", pyrepseq.pcDelta_grouped, df, by_arg, "seq", bins=0, maxseqs=max(len(v_) for v_ in groups.values()))
+                if not np.allclose(np.asarray(t2, dtype=float).reshape(-1), np.asarray(t, dtype=float).reshape(-1), equal_nan=True):
+                    raise Violation("pcDelta_grouped-maxseqs", "maxseqs >= every group size changes the per-group values")
             ri, ci = label_positions(sq.index, names, "pcDelta_grouped_cross-labels"), label_positions(sq.columns, names, "pcDelta_grouped_cross-labels")
             for a, ka in enumerate(names):
                 for b, kb in enumerate(names):
@@ -302,7 +310,8 @@ def table_case(draw, tier="quick"):
     rows = list(draw(st.permutations(rows)))
     case = {"rows": rows, "nby": nby, "on": draw(st.sampled_from(["lab", "seq", ["lab", "seq"]])),
             "bins": draw(st.sampled_from([0, 0, [0, 1, 2, 3], [0, 1, 2, 4, 8], [1, 2, 3], [0, 2, 20]])),
-            "index": draw(st.sampled_from(["default", "str", "rev"])), "by_as_list": draw(st.booleans())}
+            "index": draw(st.sampled_from(["default", "str", "rev"])), "by_as_list": draw(st.booleans()),
+            "maxseqs_noop": draw(st.booleans())}
     if draw(st.booleans()):
         case["weights"] = draw(st.lists(st.sampled_from([0.5, 1, 2, 3, 1.25, 10]), min_size=6, max_size=12))
         case["weights_as"] = draw(st.sampled_from(["list", "float64_array"]))
